@@ -85,11 +85,26 @@ impl PlanePersistence for InMemoryPlanePersistence {
             Some((key, NodeEntry::InUse(_))) => {
                 let (tx, rx) = oneshot::channel();
                 map.insert(key, NodeEntry::InUse(Some(tx)));
-                let plane_ref = inner.clone();
-                let name = node_uri.to_string();
+                let mut pending = PendingHandOver {
+                    uri: node_uri.to_string(),
+                    plane: inner.clone(),
+                    rx: Some(rx),
+                };
                 async move {
-                    if let Ok(node_state) = rx.await {
-                        Ok(InMemoryNodePersistence::new(name, plane_ref, node_state))
+                    let result = if let Some(rx) = pending.rx.as_mut() {
+                        rx.await.ok()
+                    } else {
+                        None
+                    };
+                    // The outcome is known: there is nothing left to return to the plane.
+                    pending.rx = None;
+                    if let Some(node_state) = result {
+                        let PendingHandOver { uri, plane, .. } = &pending;
+                        Ok(InMemoryNodePersistence::new(
+                            uri.clone(),
+                            plane.clone(),
+                            node_state,
+                        ))
                     } else {
                         Err(StoreError::InitialisationFailure(
                             "Multiple copies of agent instance starting.".to_string(),
@@ -107,6 +122,36 @@ impl PlanePersistence for InMemoryPlanePersistence {
                     node_state,
                 )))
                 .boxed()
+            }
+        }
+    }
+}
+
+/// A request for the state of an agent that is still held by a running instance. If the request is abandoned after
+/// the state has been handed over to it (but before it was received) the state goes back to the plane.
+struct PendingHandOver {
+    uri: String,
+    plane: Arc<Mutex<PlaneState>>,
+    rx: Option<oneshot::Receiver<NodeState>>,
+}
+
+impl Drop for PendingHandOver {
+    fn drop(&mut self) {
+        let PendingHandOver { uri, plane, rx } = self;
+        if let Some(mut rx) = rx.take() {
+            rx.close();
+            if let Ok(state) = rx.try_recv() {
+                let mut guard = plane.lock();
+                let map = &mut guard.nodes;
+                if let Some(NodeEntry::InUse(Some(tx))) = map.remove(uri) {
+                    if let Err(state) = tx.send(state) {
+                        map.insert(std::mem::take(uri), NodeEntry::Idle(state));
+                    } else {
+                        map.insert(std::mem::take(uri), NodeEntry::InUse(None));
+                    }
+                } else {
+                    map.insert(std::mem::take(uri), NodeEntry::Idle(state));
+                }
             }
         }
     }
